@@ -5,7 +5,7 @@
 import LzmaProofs.Lemmas.Lzma2
 set_option linter.unusedSimpArgs false
 namespace Lzma.C11
-open Lzma Lzma2Decoder
+open Lzma Lzma.L2 Lzma2Decoder
 
 /-! ### LZMA2 stops right behind its end byte and never looks further -/
 
@@ -51,6 +51,18 @@ theorem lzma2_consumed {x : Bytes} {rd' : Rd} {s s' : Sink}
   · rw [e, show pre ++ 0 :: rd'.rem = (pre ++ [0]) ++ rd'.rem by simp]
     exact List.drop_left' (by simp)
   · rw [e]; simp
+
+/-- the chunk loop's fuel (`rem.length + 1` in `decompress`) is only a bound: more fuel never
+changes an `Ok` result, and `rem.length + 1` always suffices for whatever any fuel accepts -/
+theorem chunkLoop_fuel_irrelevant {fuel fuel' : Nat} {d d' : Lzma2Decoder} {a a' : Accum}
+    {rd rd' : Rd} {s s' : Sink} (h : chunkLoop fuel d a rd s = (s', .ok (d', a', rd'))) :
+    (fuel ≤ fuel' → chunkLoop fuel' d a rd s = (s', .ok (d', a', rd'))) ∧
+    chunkLoop (rd.rem.length + 1) d a rd s = (s', .ok (d', a', rd')) := by
+  obtain ⟨cs, hl, hwf, hr, hb, hrun⟩ := chunkLoop_ok_iff.1 h
+  refine ⟨fun hle => chunkLoop_ok_iff.2 ⟨cs, by omega, hwf, hr, hb, hrun⟩,
+    chunkLoop_ok_iff.2 ⟨cs, ?_, hwf, hr, hb, hrun⟩⟩
+  have := flatMap_bytes_length cs
+  rw [hr, List.length_append, List.length_cons]; omega
 
 /-- non-vacuity: "abc" stored, followed by garbage -/
 example : ∃ s', lzma2Decompress (Rd.ofBytes ([1, 0, 2, 0x61, 0x62, 0x63, 0] ++ [9, 9, 9])) {}
